@@ -101,7 +101,7 @@ func modelRequest(src string) (string, bool) {
 		switch t.Kind {
 		case lexer.Number:
 			v := strings.Replace(t.Value, "_", "", -1)
-			if strings.ContainsAny(v, ".eE") && !seenF[t.Value] {
+			if !strings.ContainsAny(v, "xX") && strings.ContainsAny(v, ".eE") && !seenF[t.Value] {
 				seenF[t.Value] = true
 				f, err := strconv.ParseFloat(v, 64)
 				if err != nil {
@@ -552,11 +552,11 @@ func (p *printer) base(x ast.Node, member, s bool) ([]string, bool) {
 
 func (p *printer) link(ns, s bool) (string, bool) {
 	if ns {
-		// already sticky: both spellings give a nil-safe link
+		// already sticky: both spellings give a nil-safe link (the reference printer writes `?.`)
 		if p.variety && p.c.Rng.Intn(2) == 0 {
-			return "?.", true
+			return ".", true
 		}
-		return ".", true
+		return "?.", true
 	}
 	if s {
 		return "?.", true
@@ -871,7 +871,11 @@ func smallTrees(depth int, binOps, unOps []string) []ast.Node {
 	for _, o := range binOps {
 		for _, l := range sub {
 			for _, r := range sub {
-				out = append(out, &ast.BinaryNode{Operator: o, Left: l, Right: r})
+				if o == "matches" {
+					out = append(out, &ast.MatchesNode{Left: l, Right: r})
+				} else {
+					out = append(out, &ast.BinaryNode{Operator: o, Left: l, Right: r})
+				}
 			}
 		}
 	}
@@ -906,6 +910,54 @@ func smallTrees(depth int, binOps, unOps []string) []ast.Node {
 }
 
 // ---------------------------------------------------------------------------------------------
+// tie of the two reference printers: the Go printer with the minimal policy and no alternative spellings
+// must produce the token list of the Lean `print` (the printer of theorem parse_print) on the same tree
+
+func (c *Ctx) printerTie(trees []ast.Node) {
+	r := c.R
+	var lines []string
+	for _, t := range trees {
+		lines = append(lines, T("pprint", nodeSx(t, false)).String())
+	}
+	resp, err := c.AskAll(lines)
+	if err != nil {
+		r.Mismatch("driver", "pprint", err.Error(), "")
+		return
+	}
+	for i, t := range trees {
+		pr := &printer{c: c, policy: polMinimal}
+		src := strings.Join(pr.expr(t, 0, fNone), " ")
+		toks, err := lexer.Lex(file.NewSource(src))
+		if err != nil {
+			r.Mismatch("pprint", src, resp[i], "lexer: "+err.Error())
+			continue
+		}
+		var sb strings.Builder
+		sb.WriteString("(toks")
+		afterLink := false
+		for _, tk := range toks {
+			if tk.Kind == lexer.EOF {
+				break
+			}
+			kind, val := string(tk.Kind), tk.Value
+			if afterLink && tk.Kind == lexer.Operator {
+				kind = "Identifier" // keyword member names are identifier tokens in the token-level printer
+			}
+			if tk.Kind == lexer.Number && strings.ContainsAny(val, ".eE") {
+				f, _ := strconv.ParseFloat(val, 64)
+				val = "f" + strconv.FormatUint(math.Float64bits(f), 10)
+			}
+			sb.WriteString(" (" + kind + " " + SStr(val).String() + ")")
+			afterLink = tk.Kind == lexer.Operator && (tk.Value == "." || tk.Value == "?.")
+		}
+		sb.WriteString(")")
+		r.Case("pprint:"+src, true)
+		r.Count("pprint", 1)
+		if sb.String() != resp[i] {
+			r.Mismatch("pprint", src, resp[i], sb.String())
+		}
+	}
+}
 
 func (c *Ctx) oracleCheck(t ast.Node, pr *printer, mode int, what string) (string, []string) {
 	r := c.R
@@ -1021,10 +1073,14 @@ func runC11(c *Ctx) {
 	if c.Thorough() {
 		nRandom = 60000
 	}
+	var tieTrees []ast.Node
+	tieTrees = append(tieTrees, small...)
+	tieTrees = append(tieTrees, pairs...)
 	for i := 0; i < nRandom; i++ {
 		depth := 2 + c.Rng.Intn(5)
 		t := g.expr(depth, 0)
 		countKinds(r, t)
+		tieTrees = append(tieTrees, t)
 		pol := i % 3
 		pr := &printer{c: c, policy: pol, variety: i%2 == 1}
 		src, toks := c.oracleCheck(t, pr, i%3, "random")
@@ -1052,6 +1108,9 @@ func runC11(c *Ctx) {
 
 	// ---- probes: known oddities, each with its own stable key
 	c.probes()
+
+	// ---- the Lean reference printer and the Go reference printer agree
+	c.printerTie(tieTrees)
 
 	// ---- (i) continued: printed trees and their mutations through the model
 	if c.correspond("printed", printed) == 0 {
